@@ -168,7 +168,7 @@ def cases(chk):
         sizes = rng.choice([[2], [2, 3], [2, 3, 4], [3]])
         es, jd, tops = R.clean_network(rng, rng.choice([6, 10, 20, 40]), sizes, rng.choice([0.6, 1.0, 1.4]))
         if es:
-            cs.append({"kind": "network", "edges": es, "jd": jd, "tops": tops, "extractions_before": i % 3, "labels": ["id", "shift", "big"][(i // 3) % 3], "jd_as_list": i % 4 == 2})
+            cs.append({"kind": "network", "edges": es, "jd": jd, "tops": tops, "extractions_before": i % 3, "labels": ["id", "shift", "big"][(i // 3) % 3], "jd_as_list": i % 4 == 2, "weights": i % 5 == 1})
     return cs
 
 
